@@ -3,7 +3,7 @@
 id="$1"; patch="$2"; tier="${3:-quick}"
 wt=$(mktemp -d /tmp/seedwt.XXXXXX); rmdir "$wt"
 git -C /repo worktree add -q "$wt" HEAD || exit 3
-if ! git -C "$wt" apply "$patch"; then echo "PATCH DOES NOT APPLY"; git -C /repo worktree remove --force "$wt"; exit 3; fi
+if ! git -C "$wt" apply "$patch" 2>/dev/null && ! git -C "$wt" apply -3 "$patch"; then echo "PATCH DOES NOT APPLY"; git -C /repo worktree remove --force "$wt"; exit 3; fi
 (cd "$wt" && GOFLAGS=-mod=mod GOPROXY=off go build ./... ) || { echo "DOES NOT BUILD"; git -C /repo worktree remove --force "$wt"; exit 3; }
 cd /verif && VERIF_REPO="$wt" ./check "$id" --tier "$tier" > "/tmp/tryseed.$$.log" 2>&1
 rc=$?
